@@ -153,7 +153,11 @@ func replayC18(env *Env) {
 		}
 		expectFatal := (k >= 0 && k < P) || c.Failclose == 1
 		if expectFatal != (c.Fatal == 1) {
-			panic("fault mapping does not preserve the model's outcome")
+			// the fault offset of the model is mapped on the length of the healthy output: it no longer falls on the
+			// same side of its end (a healthy run that wrote nothing where the model writes something)
+			env.fail("C18."+c.Fmt+".healthy", "healthy", fmt.Sprintf("the healthy run of the real writer accepted %d bytes: the fault offset %d of %d of the model cannot be placed in it", P, c.K, c.Total), c)
+			nfail++
+			continue
 		}
 		// the model stops at the first reported failure: complete the history with the batches not yet arrived
 		arrival := append([]int(nil), c.Arrival...)
